@@ -18,14 +18,21 @@ RULE = ("Triangulated disks built by the harness: Delaunay triangulations of 4-4
         "both storages (per-vertex and per-corner are BOTH run on fresh meshes for every case and compared). Oracles use the "
         "border loop, vertex neighbourhoods and cotangent weights recomputed from the raw face list and coordinates. Cases whose "
         "generator output is not a disk are either used for the rejection oracle (chi != 1) or counted as discarded. "
+        "Every case also carries a SECOND configuration (target, weights, storage, verbosity drawn independently) that is run on one "
+        "of the two mesh objects ALREADY used by the first run, optionally after attributes.cotangent / attributes.corner_angles / "
+        "a cotangent laplacian were evaluated on it (persistent 'cotan' / 'angles' corner attributes); all oracles are applied to "
+        "the second result as well. Input coordinates are uniformly scaled by 1e-4 / 1 / 1e4; custom polygons may be integer-typed "
+        "(numpy int64 array, radius ~1e6); the custom array argument is snapshotted and must be unchanged after run(). "
+        "Sub-check large_disks: jittered 34..44 x 34..44 grids with random diagonals and Delaunay triangulations of 1200-1900 "
+        "jittered-grid points (> 1000 interior vertices, optional height field), same oracles and tolerances. "
         "Sub-check non_disk_rejected: triangulated spheres, tori, annuli, multi-loop and multi-component surfaces, connected sums "
         "(chi != 1) x all targets x both storages. non-trivial (disk_embedding) = >=1 interior vertex and (an interior edge "
         "joining two border vertices or a border length that is not a multiple of 4); non-trivial (non_disk_rejected) = chi != 1; "
-        "distinct = distinct realised case.")
+        "non-trivial (large_disks) = > 1000 interior vertices; distinct = distinct realised case.")
 ASSUMPTIONS = ["input disks are oriented manifold triangulations (single border loop, one component, chi = 1) without unreferenced vertices; "
                "default library configuration (sort_neighborhoods = True)",
                "cotangent weights are only requested on meshes with min angle >= 5 deg and max angle <= 170 deg (otherwise the case is "
-               "run with uniform weights); the orientation oracle is strict only when every interior-edge weight (cot a + cot b)/2 is "
+               "run with uniform weights and without the cotangent / angle caching pre-step); the orientation oracle is strict only when every interior-edge weight (cot a + cot b)/2 is "
                ">= 1e-9; when some weight lies in [-1e-9, 1e-9) (e.g. unjittered grid diagonals) only 'no triangle strictly flipped' "
                "is asserted (limit of positive weights); when a weight is < -1e-9 the orientation oracle is skipped and counted",
                "square target: the orientation oracle is applied only when no interior edge joins two border vertices that the code "
@@ -33,6 +40,8 @@ ASSUMPTIONS = ["input disks are oriented manifold triangulations (single border 
                "homeomorphically to the boundary of a convex region is one-to-one iff no dividing edge is mapped into that boundary); "
                "a triangle with all vertices on one side always has such an edge, so every case excluded by the statement is excluded "
                "here too; in the excluded cases only 'no triangle strictly flipped' is asserted (limit of strictly convex targets)",
+               "histories on one mesh object are in the domain (the repo tests themselves run per-corner then per-vertex on the same mesh): a "
+               "second TutteEmbedding on an already used mesh must satisfy the same statement for ITS options",
                "custom target: the N x 2 array is indexed like mesh.boundary_vertices (as run() pairs them); the harness supplies a "
                "strictly convex polygon in border-loop order",
                "rejection: only chi != 1 must raise (chi = 1 non-disks such as disk + torus are not asserted); the exception must come "
@@ -64,6 +73,15 @@ def convex_polygon(n, seed, scale, reverse, center):
     return P.tolist()
 
 
+def strictly_convex(P):
+    P = np.asarray(P, dtype=float)
+    E = np.roll(P, -1, axis=0) - P
+    turn = E[:, 0] * np.roll(E[:, 1], -1) - E[:, 1] * np.roll(E[:, 0], -1)
+    L = np.linalg.norm(E, axis=1)
+    rel = turn / np.maximum(L * np.roll(L, -1), 1e-300)
+    return bool(len(P) >= 3 and (np.all(rel > 1e-7) or np.all(rel < -1e-7)))
+
+
 @st.composite
 def disk_mesh(draw):
     src = draw(st.sampled_from(["delaunay", "wellshaped", "delaunay", "anygeom", "delaunay", "wellshaped", "delaunay"]))
@@ -82,26 +100,93 @@ def disk_mesh(draw):
     return {"V": s["V"], "F": [list(map(int, f)) for f in s["F"]], "tags": ["src=" + src] + list(s["tags"])}
 
 
+def options(k, prefix=""):
+    """one configuration from an integer (sampled_from is strongly biased towards its first element)"""
+    return {prefix + "mode": ["square", "custom", "circle"][k % 3], prefix + "cotan": (k // 3) % 2 == 0,
+            prefix + "bm_arg": ["circle", "square"][(k // 6) % 2], prefix + "verbose": (k // 12) % 8 == 7}
+
+
+def finish_case(draw, s):
+    """adds the two configurations, the history step, input scale and the custom polygon to a generated disk"""
+    case = {"V": s["V"], "F": s["F"], "tags": list(s["tags"])}
+    k1 = draw(st.integers(0, 2 ** 20))
+    case.update(options(k1))
+    k2 = draw(st.integers(0, 2 ** 20))
+    case.update(options(k2, "second_"))
+    case["second_corners"] = (k2 // 100) % 2 == 0
+    case["second_on"] = ["vertex-mesh", "corner-mesh"][(k2 // 200) % 2]
+    case["second_pre"] = ["cotangent", "none", "angles", "cotan_laplacian"][(k2 // 400) % 4]
+    if G.min_angle_deg(s["V"], s["F"]) < 5.0 or G.max_angle_deg(s["V"], s["F"]) > 170.0:
+        if case["cotan"] or case["second_cotan"]:
+            case["tags"].append("forced-uniform")
+        case["cotan"] = case["second_cotan"] = False
+        case["second_pre"] = "none"          # cotangents / angles are not defined on (near-)degenerate triangles
+    sc = [1.0, 1e-4, 1.0, 1e4][(k1 // 400) % 4]
+    if sc != 1.0:
+        case["V"] = (np.array(s["V"], dtype=float) * sc).tolist()
+    case["in_scale"] = sc
+    ref = SurfRef(len(s["V"]), s["F"])
+    loops = ref.border_loops() or [[]]
+    n = max(len(loops[0]) if len(loops) >= 1 else 0, 3)
+    pscale = draw(st.sampled_from([1.0, 1.0, 1e-3, 1e3, "int"]))
+    poly = convex_polygon(n, draw(st.integers(0, 10 ** 6)), 1e6 if pscale == "int" else pscale,
+                          draw(st.booleans()), [draw(st.sampled_from([0.0, 0.0, 3.0])), draw(st.sampled_from([0.0, -2.0]))])
+    if pscale == "int":
+        ip = [[int(round(x)), int(round(y))] for x, y in poly]
+        if strictly_convex(ip):
+            poly = ip
+    case["poly"] = poly
+    case["shift"] = draw(st.integers(0, 1000))
+    return case
+
+
 @st.composite
 def embed_case(draw):
-    s = draw(disk_mesh())
-    k = draw(st.integers(0, 2 ** 20))          # (sampled_from is strongly biased towards its first element)
-    mode = ["square", "custom", "circle"][k % 3]
-    cotan = (k // 3) % 2 == 0
-    case = {"V": s["V"], "F": s["F"], "tags": s["tags"], "mode": mode, "cotan": cotan}
-    if cotan and (G.min_angle_deg(s["V"], s["F"]) < 5.0 or G.max_angle_deg(s["V"], s["F"]) > 170.0):
-        case["cotan"] = False
-        case["tags"] = case["tags"] + ["forced-uniform"]
-    if mode == "custom":
-        ref = SurfRef(len(s["V"]), s["F"])
-        loops = ref.border_loops() or [[]]
-        n = len(loops[0]) if len(loops) >= 1 else 0
-        n = max(n, 3)
-        case["poly"] = convex_polygon(n, draw(st.integers(0, 10 ** 6)), draw(st.sampled_from([1.0, 1.0, 1e-3, 1e3])),
-                                      draw(st.booleans()), [draw(st.sampled_from([0.0, 0.0, 3.0])), draw(st.sampled_from([0.0, -2.0]))])
-        case["shift"] = draw(st.integers(0, 1000))
-        case["bm_arg"] = draw(st.sampled_from(["circle", "square"]))
-    return case
+    return finish_case(draw, draw(disk_mesh()))
+
+
+def large_mesh(kind, k, seed, height):
+    """> 1000 interior vertices: jittered k1 x k2 grid with random diagonals / Delaunay of a jittered point grid"""
+    rnd = np.random.RandomState(seed)
+    k1, k2 = k, k + int(rnd.randint(-3, 4))
+    if kind == "grid":
+        V, Q = G.grid(k1, k2)
+        F = []
+        for q in Q:
+            if rnd.randint(2):
+                F += [[q[0], q[1], q[2]], [q[0], q[2], q[3]]]
+            else:
+                F += [[q[0], q[1], q[3]], [q[1], q[2], q[3]]]
+        A = np.array(V, dtype=float)
+        A[:, :2] += rnd.uniform(-0.2, 0.2, (len(A), 2))
+    else:
+        from scipy.spatial import Delaunay
+        P = np.array([[i + rnd.uniform(-0.3, 0.3), j + rnd.uniform(-0.3, 0.3)] for i in range(k1) for j in range(k2)])
+        F = []
+        for t in Delaunay(P).simplices:
+            a, b, c = (P[int(x)] for x in t)
+            ar = (b[0] - a[0]) * (c[1] - a[1]) - (b[1] - a[1]) * (c[0] - a[0])
+            if abs(ar) > 1e-9:
+                F.append([int(t[0]), int(t[1]), int(t[2])] if ar > 0 else [int(t[0]), int(t[2]), int(t[1])])
+        A = np.concatenate([P, np.zeros((len(P), 1))], axis=1)
+        Vc, Fc = G.compact(A.tolist(), F)
+        r = SurfRef(len(Vc), Fc)
+        if r.validate() is not None or not _is_disk(r):
+            return large_mesh("grid", k, seed, height)
+        A, F = np.array(Vc), Fc
+    if height:
+        A[:, 2] = 0.8 * np.sin(0.4 * A[:, 0]) * np.cos(0.3 * A[:, 1])
+    return A.tolist(), [list(map(int, f)) for f in F]
+
+
+@st.composite
+def large_case(draw):
+    r = draw(st.integers(0, 2 ** 30))
+    kind = ["grid", "delaunay"][r % 2]
+    V, F = large_mesh(kind, 36 + (r // 2) % 7, r // 64, (r // 14) % 2 == 1)
+    if (r // 28) % 2:
+        V, F, _ = G.relabel(V, F, r // 128, reverse=bool((r // 56) % 2))
+    return finish_case(draw, {"V": V, "F": F, "tags": ["src=large-" + kind, "base=large-" + kind]})
 
 
 @st.composite
@@ -109,7 +194,7 @@ def reject_case(draw):
     s = draw(G.surfaces(max_faces=60, triangulated=True))
     k = draw(st.integers(0, 2 ** 20))
     return {"V": s["V"], "F": [list(map(int, f)) for f in s["F"]], "tags": list(s["tags"]), "mode": ["square", "custom", "circle"][k % 3],
-            "cotan": (k // 3) % 2 == 0, "corners": (k // 6) % 2 == 0}
+            "cotan": (k // 3) % 2 == 0, "corners": (k // 6) % 2 == 0, "bm_arg": ["circle", "square"][(k // 12) % 2]}
 
 
 # ============================================================================================ helpers
@@ -186,15 +271,21 @@ def custom_array(case, loop, bnd):
     pos = {}
     for k in range(n):
         pos[loop[(k + case.get("shift", 0)) % n]] = poly[k % len(poly)]
-    return np.array([pos[v] for v in bnd], dtype=float).reshape(-1, 2), pos
+    is_int = all(isinstance(x, int) for p in poly for x in p)
+    return np.array([pos[v] for v in bnd], dtype=(np.int64 if is_int else float)).reshape(-1, 2), pos
 
 
-def make(case, m, corners, loop, ctx):
-    """construct the worker (not run). returns (worker, expected custom positions or None)"""
+def config(case, prefix=""):
+    return {"mode": case[prefix + "mode"], "cotan": bool(case[prefix + "cotan"]), "bm_arg": case.get(prefix + "bm_arg", "circle"),
+            "verbose": bool(case.get(prefix + "verbose", False))}
+
+
+def make(case, cfg, m, corners, loop, ctx):
+    """construct the worker (not run). returns (worker, expected custom positions or None, custom array or None)"""
     from mouette.processing.parametrization import TutteEmbedding
-    kw = dict(use_cotan=bool(case["cotan"]), verbose=False, save_on_corners=bool(corners))
-    pos = None
-    if case["mode"] == "custom":
+    kw = dict(use_cotan=bool(cfg["cotan"]), verbose=bool(cfg.get("verbose", False)), save_on_corners=bool(corners))
+    pos = cb = None
+    if cfg["mode"] == "custom":
         bnd = ints(m.boundary_vertices)
         if loop is None:
             # rejection cases: any N x 2 array of the right length
@@ -202,16 +293,24 @@ def make(case, m, corners, loop, ctx):
         else:
             if not ctx.check(sorted(bnd) == sorted(loop), "boundary_vertices",
                              f"mesh.boundary_vertices = {bnd} is not the set of border vertices {sorted(loop)}"):
-                return None, None
+                return None, None, None
             cb, pos = custom_array(case, loop, bnd)
         kw["custom_boundary"] = cb
-        kw["boundary_mode"] = case.get("bm_arg", "circle")
+        kw["boundary_mode"] = cfg.get("bm_arg", "circle")
     else:
-        kw["boundary_mode"] = case["mode"]
-    return TutteEmbedding(m, **kw), pos
+        kw["boundary_mode"] = cfg["mode"]
+    return TutteEmbedding(m, **kw), pos, cb
 
 
-def read_uvs(t, m, ref, corners, ctx, tag):
+def run_quiet(ctx, t, verbose):
+    if not verbose:
+        return ctx.call("run", t.run)
+    import io, contextlib
+    with contextlib.redirect_stdout(io.StringIO()), contextlib.redirect_stderr(io.StringIO()):
+        return ctx.call("run", t.run)
+
+
+def read_uvs(t, m, ref, corners, ctx, tag, other_had=False):
     """per-vertex N x 2 array read from the documented attribute; None after a reported failure"""
     nV = ref.nV
     cont = m.face_corners if corners else m.vertices
@@ -220,7 +319,7 @@ def read_uvs(t, m, ref, corners, ctx, tag):
                      f"{tag}: after run(), uvs is {type(t.uvs).__name__} and has_attribute('uv_coords') on the "
                      f"{'face_corners' if corners else 'vertices'} container = {cont.has_attribute('uv_coords')}"):
         return None
-    ctx.check(not other.has_attribute("uv_coords"), "attribute",
+    ctx.check(other_had or not other.has_attribute("uv_coords"), "attribute",
               f"{tag}: an attribute 'uv_coords' was also created on the other container")
     ctx.check(bool(t.save_on_corners) == bool(corners), "attribute", f"{tag}: save_on_corners = {t.save_on_corners!r}")
     n = ref.nC if corners else nV
@@ -268,7 +367,7 @@ def check_flat(t, m, ref, UV, V0, ctx, tag):
 
 def expect_rejected(case, ref, corners, ctx, tag):
     m = surface_from(case["V"], case["F"])
-    t, _ = make(case, m, corners, None, ctx)
+    t, _, _ = make(case, config(case), m, corners, None, ctx)
     if t is None:
         return
     try:
@@ -316,8 +415,8 @@ def fn_embed(case, ctx):
     for tg in case["tags"]:
         if tg.startswith(("src=", "base=")) or tg in ("ear-removed", "height", "relabelled", "forced-uniform"):
             ctx.label(tg)
-    mode, cotan = case["mode"], bool(case["cotan"])
-    ctx.label("mode=" + mode, "weights=" + ("cotan" if cotan else "uniform"))
+    cfg = config(case)
+    ctx.label("mode=" + cfg["mode"], "weights=" + ("cotan" if cfg["cotan"] else "uniform"), "in_scale=" + str(case.get("in_scale", 1.0)))
     if not _is_disk(ref):
         if ref.euler() != 1:
             ctx.label("not-a-disk:rejection-oracle")
@@ -327,42 +426,100 @@ def fn_embed(case, ctx):
             ctx.label("discarded:not-a-disk")
             ctx.discard("embed:not-a-disk(chi=1)")
         return
+    if not strictly_convex(case["poly"]):
+        raise AssertionError("generated custom polygon is not strictly convex")
 
     loop = ref.border_loops()[0]
     n = len(loop)
     bset = set(loop)
     interior = [v for v in range(nV) if v not in bset]
     chords = [e for e in ref.uedges if e[0] in bset and e[1] in bset and not ref.edge_on_border(*e)]
-    ctx.label("interior=" + ("0" if not interior else "1" if len(interior) == 1 else "2-9" if len(interior) < 10 else "10+"),
+    ctx.label("interior=" + ("0" if not interior else "1" if len(interior) == 1 else "2-9" if len(interior) < 10 else
+                             "10+" if len(interior) <= 1000 else ">1000"),
               "chords=" + ("0" if not chords else "1+"), "n%4=" + str(n % 4),
               "faces=" + ("<=10" if len(F) <= 10 else "<=100" if len(F) <= 100 else ">100"),
               "border=" + ("3" if n == 3 else "4-7" if n < 8 else "8+"))
-    ctx.nontrivial(len(interior) >= 1 and (len(chords) > 0 or n % 4 != 0))
+    if ctx.sub == "large_disks":
+        ctx.nontrivial(len(interior) > 1000)
+    else:
+        ctx.nontrivial(len(interior) >= 1 and (len(chords) > 0 or n % 4 != 0))
+    geo = {"V": V, "F": F, "ref": ref, "loop": loop, "interior": interior, "chords": chords,
+           "W": cot_weights(V, ref) if (cfg["cotan"] or case["second_cotan"]) else None}
 
-    # ------------------------------------------------------------------ run both storages on fresh meshes
+    # ------------------------------------------------------------------ first configuration: both storages on fresh meshes
     res = {}
-    pos = None
+    meshes = {}
     for corners in (False, True):
         tag = "per-corner" if corners else "per-vertex"
         m = surface_from(V, F)
-        t, p = make(case, m, corners, loop, ctx)
-        if t is None:
-            return
-        pos = p if p is not None else pos
-        ok, _ = ctx.call("run", t.run)
-        if not ok:
-            return
-        UV = read_uvs(t, m, ref, corners, ctx, tag)
+        UV = run_once(case, cfg, m, corners, geo, ctx, tag, other_had=False)
         if UV is None:
             return
-        check_flat(t, m, ref, UV, V, ctx, tag)
         res[corners] = UV
+        meshes[corners] = m
     UV = res[False]
     scale = max(1e-300, float(np.max(np.abs(UV[loop]))))
     dmax = float(np.max(np.abs(res[False] - res[True])))
     ctx.check(dmax <= 1e-12 * scale, "storage:agree",
               f"per-vertex and per-corner runs differ by {dmax:.3e} (scale {scale:.3g}) on the same mesh and options")
+    if not check_embedding(cfg, UV, geo, ctx, "first run"):
+        return
 
+    # ------------------------------------------------------------------ second configuration on an ALREADY USED mesh object
+    import mouette as M
+    cfg2 = config(case, "second_")
+    on_corner_mesh = case["second_on"] == "corner-mesh"
+    m = meshes[on_corner_mesh]
+    pre = case["second_pre"]
+    c2 = bool(case["second_corners"])
+    ctx.label("second:pre=" + pre, f"second:{'cotan' if cfg['cotan'] else 'uniform'}->{'cotan' if cfg2['cotan'] else 'uniform'}",
+              f"second:{cfg['mode']}->{cfg2['mode']}", "second:storage=" + ("same" if c2 == on_corner_mesh else "other"))
+    if pre == "cotangent":
+        ok, _ = ctx.call("pre:cotangent", M.attributes.cotangent, m)
+    elif pre == "angles":
+        ok, _ = ctx.call("pre:corner_angles", M.attributes.corner_angles, m)
+    elif pre == "cotan_laplacian":
+        ok, _ = ctx.call("pre:laplacian", M.operators.laplacian, m, cotan=True)
+    else:
+        ok = True
+    if not ok:
+        return
+    other = m.vertices if c2 else m.face_corners
+    tag = (f"second run ({cfg2['mode']}/{'cotan' if cfg2['cotan'] else 'uniform'}/{'corners' if c2 else 'vertices'}) on the mesh object "
+           f"already embedded with {cfg['mode']}/{'cotan' if cfg['cotan'] else 'uniform'}/{'corners' if on_corner_mesh else 'vertices'}, pre-step {pre}")
+    UV2 = run_once(case, cfg2, m, c2, geo, ctx, tag, other_had=other.has_attribute("uv_coords"))
+    if UV2 is None:
+        return
+    check_embedding(cfg2, UV2, geo, ctx, tag)
+
+
+def run_once(case, cfg, m, corners, geo, ctx, tag, other_had):
+    """build a worker on mesh m, run it, read the coordinates back (per vertex), check flat_mesh and untouched arguments"""
+    ref, loop, V = geo["ref"], geo["loop"], geo["V"]
+    t, pos, cb = make(case, cfg, m, corners, loop, ctx)
+    if t is None:
+        return None
+    snap = None if cb is None else cb.copy()
+    ok, _ = run_quiet(ctx, t, cfg.get("verbose"))
+    if not ok:
+        return None
+    if cb is not None:
+        ctx.check(cb.dtype == snap.dtype and bool(np.all(cb == snap)), "argument:custom_boundary-mutated",
+                  f"{tag}: run() changed the custom_boundary array passed by the caller")
+    UV = read_uvs(t, m, ref, corners, ctx, tag, other_had=other_had)
+    if UV is None:
+        return None
+    check_flat(t, m, ref, UV, V, ctx, tag)
+    cfg["_pos"] = pos
+    return UV
+
+
+def check_embedding(cfg, UV, geo, ctx, tag):
+    """all statement oracles on one per-vertex coordinate array; False after a reported failure"""
+    V, F, ref, loop, interior, chords = geo["V"], geo["F"], geo["ref"], geo["loop"], geo["interior"], geo["chords"]
+    mode, cotan, pos = cfg["mode"], cfg["cotan"], cfg.get("_pos")
+    n = len(loop)
+    scale = max(1e-300, float(np.max(np.abs(UV[loop]))))
     # ------------------------------------------------------------------ border
     P = UV[loop]
     if mode == "custom":
@@ -370,27 +527,27 @@ def fn_embed(case, ctx):
         d = float(np.max(np.abs(P - exp)))
         k = int(np.argmax(np.max(np.abs(P - exp), axis=1)))
         if not ctx.check(d <= 1e-14 * scale, "border:custom",
-                         f"border vertex {loop[k]} is at {P[k].tolist()}, the custom boundary row for it is {exp[k].tolist()}"):
-            return
+                         f"{tag}: border vertex {loop[k]} is at {P[k].tolist()}, the custom boundary row for it is {exp[k].tolist()}"):
+            return False
     elif mode == "circle":
         r = np.hypot(P[:, 0], P[:, 1])
         k = int(np.argmax(np.abs(r - 1)))
         if not ctx.check(abs(r[k] - 1) <= 1e-12, "border:on-target",
-                         f"border vertex {loop[k]} is at {P[k].tolist()}, radius {r[k]!r}: not on the unit circle"):
-            return
+                         f"{tag}: border vertex {loop[k]} is at {P[k].tolist()}, radius {r[k]!r}: not on the unit circle"):
+            return False
     else:
         params = [square_param(p, 1e-12) for p in P]
         bad = [k for k in range(n) if params[k][0] is None]
         if not ctx.check(not bad, "border:on-target",
-                         f"border vertex {loop[bad[0]] if bad else ''} is at {P[bad[0]].tolist() if bad else ''}: not on the boundary of the unit square"):
-            return
+                         f"{tag}: border vertex {loop[bad[0]] if bad else ''} is at {P[bad[0]].tolist() if bad else ''}: not on the boundary of the unit square"):
+            return False
     # pairwise distinct positions
     D = np.sqrt(((P[:, None, :] - P[None, :, :]) ** 2).sum(axis=2)) + np.eye(n) * 1e300
     i, j = np.unravel_index(int(np.argmin(D)), D.shape)
     if not ctx.check(D[i, j] > 1e-9 * scale, "border:distinct",
-                     f"{mode}: border vertices {loop[i]} and {loop[j]} (positions {i} and {j} of the {n}-vertex border loop) are both placed at "
+                     f"{tag}: {mode}: border vertices {loop[i]} and {loop[j]} (positions {i} and {j} of the {n}-vertex border loop) are both placed at "
                      f"{P[i].tolist()} / {P[j].tolist()}"):
-        return
+        return False
     # monotone, winding once
     if mode == "circle":
         ts = [math.atan2(p[1], p[0]) % (2 * math.pi) for p in P]
@@ -402,9 +559,9 @@ def fn_embed(case, ctx):
         ts = None
         mono = True
     if not ctx.check(mono, "border:order",
-                     f"{mode}: positions of the border vertices, taken in border order {loop[:12]}..., are not monotone around the target: "
+                     f"{tag}: {mode}: positions of the border vertices, taken in border order {loop[:12]}..., are not monotone around the target: "
                      f"perimeter coordinates {[round(x, 4) for x in ts[:16]] if ts else ''}"):
-        return
+        return False
     # the positions form a convex polygon traversed once (generic form, all targets)
     E = np.roll(P, -1, axis=0) - P
     turn = E[:, 0] * np.roll(E[:, 1], -1) - E[:, 1] * np.roll(E[:, 0], -1)
@@ -413,11 +570,11 @@ def fn_embed(case, ctx):
     strict_target = mode != "square"
     tmin = float(np.min(turn * sgn))
     if not ctx.check(abs(parea) > 1e-9 * scale ** 2 and (tmin > 0 if strict_target else tmin >= -1e-12),
-                     "border:convex", f"{mode}: border polygon in border order is not convex (area {parea:.3e}, min turn {tmin:.3e})"):
-        return
+                     "border:convex", f"{tag}: {mode}: border polygon in border order is not convex (area {parea:.3e}, min turn {tmin:.3e})"):
+        return False
 
     # ------------------------------------------------------------------ interior vertices: weighted mean of the neighbours
-    W = cot_weights(V, ref) if cotan else None
+    W = geo["W"] if cotan else None
     worst = (0.0, None)
     for v in interior:
         nb = sorted(ref.v2v[v])
@@ -427,9 +584,9 @@ def fn_embed(case, ctx):
         if rel > worst[0]:
             worst = (rel, v)
     if not ctx.check(worst[0] <= TOL, "interior:mean",
-                     f"interior vertex {worst[1]} at {UV[worst[1]].tolist() if worst[1] is not None else ''} is not the "
+                     f"{tag}: interior vertex {worst[1]} at {UV[worst[1]].tolist() if worst[1] is not None else ''} is not the "
                      f"{'cotangent' if cotan else 'uniform'}-weighted mean of its neighbours (relative residual {worst[0]:.3e})"):
-        return
+        return False
 
     # ------------------------------------------------------------------ orientation
     level = "strict"
@@ -439,7 +596,7 @@ def fn_embed(case, ctx):
         if wmin < -1e-9:
             ctx.label("orientation:skipped(negative-cotan)")
             ctx.discard("orientation:negative-cotan-weight")
-            return
+            return True
         if wmin < 1e-9:
             level = "weak"
     if mode == "square":
@@ -456,13 +613,14 @@ def fn_embed(case, ctx):
     k = int(np.argmin(A))
     if level == "strict":
         ctx.check(A[k] > AREA_TOL * scale ** 2, "orientation",
-                  f"{mode}/{'cotan' if cotan else 'uniform'}: triangle {k} {F[k]} has signed area {A[k] * sgn:.3e} in the embedding while the "
+                  f"{tag}: {mode}/{'cotan' if cotan else 'uniform'}: triangle {k} {F[k]} has signed area {A[k] * sgn:.3e} in the embedding while the "
                   f"border polygon has area {parea:.3e} (flipped or degenerate); uv = {UV[F[k]].tolist()}")
     else:
         ctx.check(A[k] >= -1e-9 * scale ** 2, "orientation:weak",
-                  f"{mode}/{'cotan' if cotan else 'uniform'} (weak form: zero weights or dividing edge on a side of the square): triangle {k} {F[k]} is flipped: signed area {A[k] * sgn:.3e}, border polygon area {parea:.3e}")
+                  f"{tag}: {mode}/{'cotan' if cotan else 'uniform'} (weak form: zero weights or dividing edge on a side of the square): triangle {k} {F[k]} is flipped: signed area {A[k] * sgn:.3e}, border polygon area {parea:.3e}")
     tot = float(np.sum(A))
     ctx.check(abs(tot - abs(parea)) <= 1e-9 * abs(parea), "orientation:total", f"triangle areas sum to {tot!r}, border polygon area {abs(parea)!r}")
+    return True
 
 
 def self_test():
@@ -481,6 +639,11 @@ def self_test():
     W = cot_weights([[0, 0, 0], [1, 0, 0], [0.5, h, 0], [0.5, -h, 0]], SurfRef(4, [[0, 1, 2], [1, 0, 3]]))
     assert abs(W[(0, 1)] - 1 / math.sqrt(3)) < 1e-14
     assert abs(tri_areas([[0, 0], [1, 0], [0, 1]], [[0, 1, 2], [0, 2, 1]]) - np.array([0.5, -0.5])).max() == 0
+    assert strictly_convex([[0, 0], [2, 0], [2, 2], [0, 2]]) and strictly_convex([[0, 0], [0, 2], [2, 2], [2, 0]])
+    assert not strictly_convex([[0, 0], [1, 0], [2, 0], [2, 2], [0, 2]]) and not strictly_convex([[0, 0], [2, 0], [1, 1], [2, 2], [0, 2]])
+    Vl, Fl = large_mesh("delaunay", 36, 5, True)
+    rl = SurfRef(len(Vl), Fl)
+    assert rl.validate() is None and _is_disk(rl) and len(Vl) - len(rl.border_loops()[0]) > 1000
     P = convex_polygon(9, 3, 1.0, False, [0, 0])
     E = np.roll(np.array(P), -1, axis=0) - np.array(P)
     assert np.all(E[:, 0] * np.roll(E[:, 1], -1) - E[:, 1] * np.roll(E[:, 0], -1) > 0)
@@ -489,6 +652,7 @@ def self_test():
 SUBCHECKS = [
     SubCheck("disk_embedding", embed_case(), fn_embed, quick=3200, thorough=8000),
     SubCheck("non_disk_rejected", reject_case(), fn_reject, quick=600, thorough=2000),
+    SubCheck("large_disks", large_case(), fn_embed, quick=16, thorough=12, watchdog=(180, 600)),
 ]
 
 MATCHERS = {}
